@@ -304,11 +304,14 @@ pub fn run_probe<S: Sut>(w: &mut World<S>, p: &Probe) -> Res {
             let exp = expect_validate_ok(&w.family, &w.aops, k, ix, w.nodes[*node].last_obs.as_ref());
             match (v, exp) {
                 (Ok(Verdict::Ok), Some(true)) | (Ok(Verdict::Err { .. }), Some(false)) | (Ok(_), None) => Ok(true),
-                (Ok(v), Some(e)) => fail(
-                    w.step,
-                    "validate.any",
-                    format!("node {} K={:x}: validate_op({}) = {}, expected {}", node, k, S::op_dbg(&op), v.show(), if e { "Ok (no update of its actor is skipped)" } else { "an ordering error (a gap)" }),
-                ),
+                (Ok(v), Some(e)) => {
+                    let d = format!("node {} K={:x}: validate_op({}) = {}, expected {}", node, k, S::op_dbg(&op), v.show(), if e { "Ok (no update of its actor is skipped)" } else { "an ordering error (a gap)" });
+                    if w.soft_validate("validate.any", &v, e, d.clone()) {
+                        Ok(true)
+                    } else {
+                        fail(w.step, "validate.any", d)
+                    }
+                }
                 (Err(p), _) => fail(w.step, "validate.any", format!("validate_op panicked: {}", p)),
             }
         }
